@@ -318,35 +318,41 @@ def exh_choice(ctx):
     b = ctx.body(N)
     if b is None:
         return [missing(N)]
-    for p in checked(d, "choice-next", b, ctx.walk(b, max_visits=1).paths, only=lambda p: p.end == "return"):
+    # next() with its helper next_branch read into it (rxv/vocabulary_thin.json): whether "is there another branch"
+    # travels as a bool, as Option<()> or as the iterator just installed is then no longer a difference
+    CUR = r"(?:a1\.current_iter as Some\.0|Option::insert\(a1\.current_iter, (?:<Operation as OperationControl>::)?matches_iter\(.*\)\))"
+    for p in checked(d, "choice-next", b, ctx.walk(b, max_visits=1).paths, only=lambda p: p.end == "return" or p.end.startswith("loop")):
         gs, r = summarize(p)
         gs = [strip_ver(g) for g in gs]
+        r = strip_ver(r)
         loc = b.loc(p.blocks[-1])
-        if p.end != "return":
-            continue
-        if r == "Option::None":
-            _rec(d, "none-after-branches-exhausted", gs[-1] == "!ChoiceIterator::next_branch(a1)", "ChoiceIterator reports exhaustion although branches remain (last guard %s)" % gs[-1:], loc)
-        else:
-            m = re.match(r"^Option::Some\{0: next\((.*) as Some\.0\) as Some\.0\}$", strip_ver(r))
-            _rec(d, "some-from-current", m is not None and m.group(1) == "a1.current_iter", "results must come from the current branch iterator; found %s" % r[:80], loc)
-    NB = "op_choice::ChoiceIterator::next_branch"
-    nb = ctx.body(NB)
-    if nb is None:
-        return _emit(d) + [missing(NB)]
-    for p in checked(d, "next_branch", nb, ctx.walk(nb).paths):
-        gs, r = summarize(p)
-        loc = nb.loc(p.blocks[-1])
         cs = _calls(p)
-        if any(g.endswith("=Some") for g in gs):
-            names = [c[0] for c in cs]
+        st = [(strip_ver(show(e[1])), strip_ver(render(e[2]))) for e in p.effects if e[0] == "store"]
+        br = [g for g in gs if re.match(r"^variant\((?:<.*?>::)?next\(a1\.branches_iter\)\)=(Some|None)$", g)]
+        entered = bool(br) and br[-1].endswith("=Some")
+        work = [c for c in cs if c[0] == "clear_captured_groups_beyond" or c[0].endswith("matches_iter")]
+        if p.end == "return" and r == "Option::None":
+            _rec(d, "none-after-branches-exhausted", bool(br) and br[-1].endswith("=None"), "ChoiceIterator reports exhaustion although branches remain (guards %s)" % gs[-2:], loc)
+        if bool(br) and br[-1].endswith("=None"):
+            _rec(d, "no-branch", not work and not any(pl == "a1.current_iter" and v.startswith("Option::Some") for pl, v in st), "without a further branch nothing is entered", loc)
+        if entered:
             ci = [i for i, c in enumerate(cs) if c[0] == "clear_captured_groups_beyond"]
             mi = [i for i, c in enumerate(cs) if c[0].endswith("matches_iter")]
-            good = len(ci) == 1 and len(mi) == 1 and ci[0] < mi[0] and cs[ci[0]][1] == ["a1.matcher", "a1.position"] and cs[mi[0]][1][1:] == ["a1.matcher", "a1.position"] and re.match(r"^(?:<.*?>::)?next\(a1\.branches_iter\)", cs[mi[0]][1][0]) is not None
-            _rec(d, "branch-entry", good and r == "true", "entering a branch: clear_captured_groups_beyond(position) first, then branch.matches_iter(matcher, position) (an eager branch iterator would otherwise have its captures wiped); calls %s" % [(c[0], c[1][-1][:30]) for c in cs if c[0].split("::")[-1] != "next"], loc)
-            st = [strip_ver(show(e[1])) for e in p.effects if e[0] == "store"]
-            _rec(d, "branch-stored", "a1.current_iter" in st, "the new branch iterator must become current_iter", loc)
-        else:
-            _rec(d, "no-branch", r == "false" and not [c for c in cs if c[0].split("::")[-1] != "next"], "without a further branch next_branch must answer false and do nothing", loc)
+            good = len(ci) == 1 and len(mi) == 1 and ci[0] < mi[0] and cs[ci[0]][1] == ["a1.matcher", "a1.position"] and cs[mi[0]][1][1:] == ["a1.matcher", "a1.position"] and re.match(r"^(?:<.*?>::)?next\(a1\.branches_iter\) as Some\.0$", cs[mi[0]][1][0]) is not None
+            _rec(d, "branch-entry", good, "entering a branch: clear_captured_groups_beyond(position) first, then branch.matches_iter(matcher, position) (an eager branch iterator would otherwise have its captures wiped); calls %s" % [(c[0], c[1][-1][:30]) for c in cs if c[0].split("::")[-1] != "next"], loc)
+            stored = any(pl == "a1.current_iter" and re.match(r"^Option::Some\{0: (?:<Operation as OperationControl>::)?matches_iter\(", v) for pl, v in st) or any(c[0].split("::")[-1] == "insert" and c[1] and c[1][0] == "a1.current_iter" and "matches_iter(" in c[1][1] for c in cs)
+            _rec(d, "branch-stored", stored, "the new branch iterator must become current_iter", loc)
+        elif work:
+            _rec(d, "branch-entry", False, "a branch is entered on a path that did not take it from branches_iter", loc)
+        if p.end == "return" and r != "Option::None":
+            m = re.match(r"^Option::Some\{0: next\((%s)\) as Some\.0\}$" % CUR, r) or re.match(r"^next\((%s)\)$" % CUR, r)
+            delivered = [g for g in gs if re.match(r"^(?:variant\(next\(%s\)\)=Some|isSome\(next\(%s\)\))$" % (CUR, CUR), g)]
+            _rec(d, "some-from-current", m is not None and bool(delivered), "results must come from the current branch iterator (and be results: Some); found %s" % r[:100], loc)
+        if p.end.startswith("loop") and not entered:
+            _rec(d, "branch-entry", False, "a turn ends without a result and without entering another branch (guards %s)" % gs[-2:], loc)
+    for k in ("none-after-branches-exhausted", "some-from-current", "branch-entry", "branch-stored", "no-branch"):
+        if k not in d:
+            d[k] = [False, "ChoiceIterator::next no longer shows clause %s (restructured; re-audit)" % k, b.loc()]
     # source order: branches_iter = branches.iter() (no reversing adaptor)
     NW = "op_choice::ChoiceIterator::new"
     nw = ctx.body(NW)
